@@ -11,7 +11,7 @@ from sa.report import Ctx
 
 from .common import generic_sweeps
 
-from .sat_common import SatRoles, _enclosing_block, check_add_sites, check_assumption_assertion, check_analysis, check_assign, check_backtrack, check_bcp, check_heap_flags, check_variable_universe
+from .sat_common import SatRoles, _enclosing_block, check_add_sites, check_assumption_assertion, check_analysis, check_assign, check_backtrack, check_bcp, check_main_loop, check_heap_flags, check_variable_universe
 
 EXPLANATION = (
     "Decides structural necessary conditions of 'every returned assignment satisfies every clause / agrees with "
@@ -41,6 +41,7 @@ def run(ctx: Ctx):
     check_assign(ctx, "C01-O9")
     check_bcp(ctx, "C01-O10")
     check_analysis(ctx, "C01-O11")
+    check_main_loop(ctx, "C01-O12")
     generic_sweeps(ctx, skip_stutter_modules=("solvor/sat.py",))
 
 
@@ -297,6 +298,11 @@ def _v_analysis_keeps_true_literal(tree):
     M.replace_expr(g, lambda e: isinstance(e, ast.IfExp) and M.src_has(e, "lit_neg(lit)"), M.expr("lit"))
 
 
+def _v_no_backjump(tree):
+    g = M.find_func(tree, "solve_sat")
+    M.replace_stmt(g, lambda s: isinstance(s, ast.Expr) and M.src_is(s.value, "unassign_to(bt_level)"), [])
+
+
 def _v_flag_kept_on_skip(tree):
     g = M.find_func(tree, "solve_sat.pick_var")
     M.replace_stmt(g, lambda s: M.src_is(s, "in_heap[var] = False"), [])
@@ -345,6 +351,7 @@ VARIANTS = [
     M.Variant("assign records the previous decision level", SAT, _v_assign_level_of_previous, "C01-O9"),
     M.Variant("propagation treats a clause as unit although a replacement watch was found", SAT, _v_bcp_unit_without_search, "C01-O10"),
     M.Variant("conflict analysis puts true literals into the learned clause", SAT, _v_analysis_keeps_true_literal, "C01-O11"),
+    M.Variant("driver records the backjump level without undoing the trail", SAT, _v_no_backjump, "C01-O12"),
     M.Variant("twin: reformat only", SAT, _t_reformat, None),
     M.Variant("twin: rename locals of the backtrack routine", SAT, _t_rename, None),
     M.Variant("twin: backtrack written as pop-and-cut loop", SAT, _t_pop_form, None),
